@@ -79,8 +79,8 @@ static const cfg_t cfgs[] = {
       A_U0, 1, 2, { { SIG, NOLOCK }, { SIG, NOLOCK } } },
     { "all external: W=X,X S=X signal,broadcast", 0, 2, { A_EXT, A_EXT },
       A_EXT, 0, 2, { { SIG, LOCKED }, { BC, LOCKED } } },
-    { "all on ES1: W=U1,U1 S=U1 signal,broadcast", 0, 2, { A_U1, A_U1 }, A_U1,
-      0, 2, { { SIG, LOCKED }, { BC, LOCKED } } },
+    { "all on ES1, gate 0..2: W=U1,U1 S=U1 signal,broadcast", 0, 2,
+      { A_U1, A_U1 }, A_U1, -1, 2, { { SIG, LOCKED }, { BC, LOCKED } } },
     { "one stream, gate 0..2: W=U0,U0 S=U0 broadcast,signal", 0, 2,
       { A_U0, A_U0 }, A_U0, -1, 2, { { BC, LOCKED }, { SIG, LOCKED } } },
     { "3 waiters, signal after all wait: W=U0,U1,X S=primary", 0, 3,
